@@ -255,7 +255,25 @@ fn run_op(root: &Path, o: &Value) -> (Value, Value) {
     (shown, res)
 }
 
+static CUR: std::sync::atomic::AtomicI64 = std::sync::atomic::AtomicI64::new(-1);
+/// a plan that does not finish within 30 s is a hang of the code under test (exit 43)
+fn watchdog() {
+    std::thread::spawn(|| {
+        let mut last = (-2i64, std::time::Instant::now());
+        loop {
+            std::thread::sleep(std::time::Duration::from_millis(250));
+            let cur = CUR.load(std::sync::atomic::Ordering::Relaxed);
+            if cur != last.0 {
+                last = (cur, std::time::Instant::now());
+            } else if cur >= 0 && last.1.elapsed() > std::time::Duration::from_secs(30) {
+                unsafe { libc::_exit(43) };
+            }
+        }
+    });
+}
+
 fn seq_mode(plans: &str, base: &str, skip: usize) {
+    watchdog();
     let f = std::io::BufReader::new(std::fs::File::open(plans).unwrap());
     let stdout = std::io::stdout();
     let mut out = std::io::BufWriter::with_capacity(1 << 16, stdout.lock());
@@ -277,9 +295,13 @@ fn seq_mode(plans: &str, base: &str, skip: usize) {
         if id < skip {
             continue;
         }
-        let root = PathBuf::from(base).join(format!("r{id}"));
-        let _ = std::fs::remove_dir_all(&root);
+        // three private levels above the root: a link moved upwards may point to "../.." without
+        // leaving the plan's own directory
+        let top = PathBuf::from(base).join(format!("r{id}"));
+        let root = top.join("u/v/root");
+        let _ = std::fs::remove_dir_all(&top);
         std::fs::create_dir_all(&root).unwrap();
+        CUR.store(id as i64, std::sync::atomic::Ordering::Relaxed);
         let tree = match plan.get("tree") {
             Some(t) => t.clone(),
             None => inits[plan["init"].as_u64().unwrap() as usize - 1].clone(),
@@ -297,8 +319,9 @@ fn seq_mode(plans: &str, base: &str, skip: usize) {
         }
         out.flush().unwrap();
         std::env::set_current_dir(&home).unwrap();
-        std::fs::remove_dir_all(&root).unwrap();
+        std::fs::remove_dir_all(&top).unwrap();
     }
+    CUR.store(-1, std::sync::atomic::Ordering::Relaxed);
     writeln!(out, "{}", json!({"ev": "end", "n": idx})).unwrap();
     out.flush().unwrap();
 }
